@@ -23,7 +23,7 @@ ID = "C16"
 LEVEL = "exploration"
 DESIGN_REF = "DESIGN.md 4/C16"
 RULE = (
-    "case = (template, exponent e, operation): 24 type templates (primitive / sub-byte / nested variable-length elements to depth 3, "
+    "case = (template, exponent e, operation): 30 type templates (primitive / sub-byte / nested variable-length elements to depth 3, "
     "delimited with large extent, unions) with capacity or extent N = 2**e for every e in 1..63 (thorough: also 2**e-1 and 2**e+1), "
     "built through the constructors (a subset also read from DSDL text); operations: build, min, max, extent, fixed_length, "
     "is_aligned_at_byte of the type and of every field offset (min/max too), == and hash against an independently built twin, != against "
@@ -69,6 +69,14 @@ def templates():
         "twelve-subbyte-arrays": lambda n: ["struct", [["varr", u3, n]] * 12],
         "twelve-mixed-arrays": lambda n: ["struct", [["varr", b, n], ["varr", u17, n], ["varr", u3, n], ["farr", b, 3]] * 3],
         "sixteen-variant-union": lambda n: ["union", [["varr", u3, n], ["varr", b, n], ["varr", u17, n], u8] * 4],
+        # repetitions of BYTE-ALIGNED variable-length elements: few residues per divisor (multiples of 8), so a residue iteration that
+        # only stops once every residue class was seen would run for the whole repetition count
+        "farr-of-struct-varr8": lambda n: ["struct", [["farr", ["struct", [["varr", u8, 3]]], n]]],
+        "farr-of-union-bytes": lambda n: ["struct", [b, ["farr", ["union", [u8, ["uint", 16, "s"]]], n], u3]],
+        "farr-of-varr-uint16": lambda n: ["struct", [["farr", ["varr", ["uint", 16, "s"], 2], n], b]],
+        "farr-of-delimited": lambda n: ["struct", [["farr", ["delim", ["struct", [u8]], 24], n]]],
+        "varr-of-varr-uint16": lambda n: ["struct", [u3, ["varr", ["varr", ["uint", 16, "s"], 2], n]]],
+        "farr-of-empty": lambda n: ["struct", [["farr", ["struct", []], n], ["varr", ["struct", []], n], b]],
         "struct-of-struct-runs": lambda n: ["struct", [["struct", [["varr", u3, n]] * 6], b, ["struct", [["varr", b, n]] * 6], u3]],
     }
 
